@@ -797,8 +797,11 @@ LEVEL_TEXT = ("Partial. Model: printer (all scalar types incl. time tags, range 
               "float text round-trips bit-exactly (C10_hexfloat_roundtrip, C10_float_tokens; no oracle). Time tags: model compared "
               "with the code on every run; proved about the model: the calendar pair round-trips for every 32-bit number of seconds "
               "(C10_timetag_calendar, no hypothesis), the fraction survives its float when it has at most 24 significant bits "
-              "(C10_timetag_fraction), the value is rebuilt from the printed fields (C10_timetag_value_partial); the text-level "
-              "reading of a time tag is shown for examples by computation and tied, not proved in general. Range conversion: "
+              "(C10_timetag_fraction), the value is rebuilt from the printed fields (C10_timetag_value_partial); at the level "
+              "of the text the scanner's date branch reads the printed text of EVERY time tag of whole seconds (all three strftime "
+              "formats) back to that time tag and stops behind it (C10_timetag_token_whole_seconds); for a time tag with a fraction "
+              "and for the checker's skip_date the text-level reading is shown for examples by computation and tied, not proved in "
+              "general. Range conversion: "
               "C10_range_expand.")
 LEVEL_NOTE = ("Trusted: Coq kernel, extraction, OCaml driver (incl. its libc oracle for decimal float literals, dead in lossless "
               "mode), harness, generators. FloatFmt.v: fmt_f/fmt_a = glibc printf and sc_f/to_bits = glibc sscanf are tied by "
